@@ -1017,6 +1017,66 @@ def r15(k: Kit) -> None:
                       g.describe_path(w) if w else None)
     rep.floor('C10.R15', 'PKCS#12 KDF call sites', m, 1)
 
+
+# ------------------------------------------------------------------ R16
+
+def r16(k: Kit) -> None:
+    rep = k.rep
+    idx = k.idx
+    rep.rule('C10.R16', 'regular expressions built at run time in the '
+             'modules that parse untrusted text (misc, public_key, '
+             'known_hosts, auth_keys, sshsig, pattern, config): every '
+             'non-constant operand of the pattern passes through re.escape '
+             '- a PEM "BEGIN" line spliced into the footer pattern as is '
+             'makes the import functions raise re.error (undocumented) or '
+             'backtrack exponentially on a 70-byte input')
+    mods = ['misc', 'public_key', 'known_hosts', 'auth_keys', 'sshsig',
+            'pattern', 'config']
+    n = 0
+
+    def leaves(e):
+        if isinstance(e, ast.BinOp) and isinstance(e.op, ast.Add):
+            return leaves(e.left) + leaves(e.right)
+        if isinstance(e, ast.JoinedStr):
+            return [v.value if isinstance(v, ast.FormattedValue) else v
+                    for v in e.values]
+        return [e]
+    for fi in idx.iter_funcs(mods):
+        for c in ast.walk(fi.node):
+            if not (isinstance(c, ast.Call) and dotted(c.func) in (
+                    're.compile', 're.search', 're.match', 're.fullmatch',
+                    're.sub', 're.split', 're.findall', 're.finditer')):
+                continue
+            if not c.args:
+                continue
+            pat = c.args[0]
+            if isinstance(pat, ast.Constant):
+                continue
+            n += 1
+            raw = []
+            for lf in leaves(pat):
+                if isinstance(lf, ast.Constant):
+                    continue
+                if isinstance(lf, ast.Call) and dotted(lf.func) == 're.escape':
+                    continue
+                try:
+                    v = idx.fold(fi.module, lf)
+                except Exception:
+                    v = None
+                if isinstance(v, (str, bytes)):
+                    continue
+                raw.append(lf)
+            rep.check(not raw, 'C10.R16',
+                      key(fi, f'pattern operands escaped L{c.lineno}'),
+                      'every dynamic operand goes through re.escape',
+                      f'`{norm(raw[0])[:50] if raw else ""}` is spliced into '
+                      'a regular expression unescaped: input such as '
+                      '"-----BEGIN ( PRIVATE KEY-----" raises re.error out '
+                      'of import_private_key, and "-----BEGIN (x+x+)+y '
+                      'CERTIFICATE-----" followed by a long "END xxx" line '
+                      'takes exponential time', fi.loc(c))
+    rep.floor('C10.R16', 'run-time built patterns', n, 1)
+
 # ------------------------------------------------------------------ R12
 
 def r12(k: Kit) -> None:
@@ -1097,6 +1157,7 @@ def run(idx, rep, tier):
     r12(k)
     r13(k)
     r15(k)
+    r16(k)
     from .c12 import copy_loop_progress
     rep.rule('C10.R14', 'copy-data: the server\'s copy loop reaches its '
              'test again only after a read that returned data (= clause of '
